@@ -1,2 +1,81 @@
-(* C25 — placeholder while the proofs are being written. *)
-From Sky Require Import Base.Uint Model.Intro.
+(* C25 — Only correctly introduced peers reach the protocol.
+   Statements only, over the executable model Model/Intro.v of
+   IntroductionMessage.Verify (/repo/src/daemon/messages.go) and of the gate of
+   Daemon.onMessageEvent (/repo/src/daemon/daemon.go), tied to the code by the
+   correspondence check of every run. `sub e lo n` = the n bytes of e from
+   offset lo; `ua_valid` = useragent.Parse(useragent.Sanitize(.)) succeeds (an
+   arbitrary predicate here: the theorems hold for every such predicate). *)
+From Sky Require Import Base.Uint Model.Intro Proofs.IntroProofs.
+Open Scope Z_scope.
+
+(* Verify returns nil exactly when: not a self connection; version >= minimum;
+   Extra starts with this network's blockchain pubkey (33 bytes); burn factor >= 2,
+   max transaction size >= 1024, max decimals <= 6 (9 bytes, little endian); a
+   4-byte length n <= 256 followed by n bytes inside Extra that form a valid user
+   agent; and after it either nothing or at least 32 bytes (the genesis hash is
+   recorded, NOT compared with ours) *)
+Theorem C25_intro_iff : forall ua_valid dc m, is_bytes (im_extra m) ->
+  ((exists a, intro_verify ua_valid dc m = Val (Accept a)) <->
+   (let e := im_extra m in
+    im_mirror m <> cfg_mirror dc /\
+    cfg_min_version dc <= im_version m /\
+    42 <= blen e /\
+    sub e 0 33 = cfg_pubkey dc /\
+    2 <= le_val (sub e 33 4) /\ 1024 <= le_val (sub e 37 4) /\ le_val (sub e 41 1) <= 6 /\
+    46 <= blen e /\
+    (let n := le_val (sub e 42 4) in
+     n <= 256 /\ 46 + n <= blen e /\ ua_valid (sub e 46 n) = true /\
+     (blen e = 46 + n \/ 32 <= blen e - (46 + n))))).
+Proof. exact intro_iff. Qed.
+Print Assumptions C25_intro_iff.
+
+(* no slice of Verify is out of range, for ANY Extra byte string *)
+Theorem C25_intro_total : forall ua_valid dc m, is_bytes (im_extra m) -> intro_verify ua_valid dc m <> Panic.
+Proof. exact intro_total. Qed.
+Print Assumptions C25_intro_total.
+
+(* what an accepted introduction leaves in the connection record *)
+Theorem C25_intro_accept_records : forall ua_valid dc m a, is_bytes (im_extra m) ->
+  intro_verify ua_valid dc m = Val (Accept a) ->
+  let e := im_extra m in let n := le_val (sub e 42 4) in
+  ac_burn a = le_val (sub e 33 4) /\ ac_max_txn_size a = le_val (sub e 37 4) /\ ac_max_decimals a = le_val (sub e 41 1) /\
+  ac_user_agent a = sub e 46 n /\ ua_valid (ac_user_agent a) = true /\
+  ac_genesis a = copy_hash (skipn (Z.to_nat (46 + n)) e).
+Proof. exact intro_accept_records. Qed.
+Print Assumptions C25_intro_accept_records.
+
+(* the gate: on a live, not yet introduced connection every message other than
+   INTR / DISC / GIVP is answered by DisconnectMessage(NoIntroduction) and is not
+   processed (the state does not change) *)
+Theorem C25_gate : forall c k, alive c = true -> introduced c = false -> passes_gate k = false ->
+  gate_step c k = (c, [SDisconnect RNoIntroduction]).
+Proof. exact gate. Qed.
+Print Assumptions C25_gate.
+
+Theorem C25_passes_gate_iff : forall k,
+  passes_gate k = true <-> (exists v, k = KIntro v) \/ k = KDisc \/ k = KGivePeers.
+Proof. exact passes_gate_iff. Qed.
+Print Assumptions C25_passes_gate_iff.
+
+(* a connection becomes introduced only through an introduction that Verify accepts *)
+Theorem C25_introduced_only_by_accepted_intro : forall c k,
+  introduced (fst (gate_step c k)) = true -> introduced c = true \/ exists a, k = KIntro (Accept a).
+Proof. exact introduced_only_by_accepted_intro. Qed.
+Print Assumptions C25_introduced_only_by_accepted_intro.
+
+(* non-vacuity: a 46-byte-header message with user agent "a:1.2.3" and no genesis
+   hash is accepted; the same with 31 trailing bytes, a wrong pubkey byte, or sent
+   before... is rejected; GetBlocks before the introduction is answered by a disconnect *)
+Example C25_example :
+  let pk := repeat 2 33 in
+  let dc := mkConfig 4660 2 pk in
+  let ua := [97; 58; 49; 46; 50; 46; 51] in
+  let e := pk ++ [10;0;0;0; 0;128;0;0; 3] ++ [7;0;0;0] ++ ua in
+  let orc := fun s => bytes_eqb s ua in
+  (exists a, intro_verify orc dc (mkIntro 7 3 e) = Val (Accept a)) /\
+  intro_verify orc dc (mkIntro 7 3 (e ++ repeat 0 31)) = Val (Reject RInvalidExtraData) /\
+  intro_verify orc dc (mkIntro 7 3 (3 :: tl e)) = Val (Reject RPubkeyNotMatched) /\
+  intro_verify orc dc (mkIntro 4660 3 e) = Val (Reject RSelf) /\
+  gate_step fresh_conn KGetBlocks = (fresh_conn, [SDisconnect RNoIntroduction]).
+Proof. cbv zeta. split; [eexists; vm_compute; reflexivity|]. vm_compute. repeat split. Qed.
+Print Assumptions C25_example.
